@@ -304,8 +304,24 @@ def tile_factor(repo: Repo, chk: Check) -> None:
         chk.result(bool(mid), "C03.tile-factor", f"{f.key}:split-expr", s.where(),
                    "old index dim = T * d_dim + d_{dim+1} with the same T",
                    f"the split expression in {ast.unparse(res)[:160]} is not `d_dim * T + d_(dim+1)` with T the tile size: the multiplier differs from the inserted bound")
-        pre = subexprs(res, "tuple((AffineDimExpr($i) for $i in range($d)))", {"d": dim})
-        post = subexprs(res, "tuple((AffineDimExpr($i + 1) for $i in range($d + 1, self.num_dims)))", {"d": dim})
+        def comps(elt_t: str, iter_ts: list[str]) -> list[ast.AST]:
+            """comprehensions (list / generator, however wrapped or spliced) with that element over that range"""
+            out_ = []
+            for c_ in ast.walk(res):
+                if isinstance(c_, (ast.ListComp, ast.GeneratorExp)) and len(c_.generators) == 1 and not c_.generators[0].ifs and isinstance(c_.generators[0].target, ast.Name):
+                    iv = c_.generators[0].target.id
+                    if norm.match(T(elt_t), c_.elt, {"i": iv}) is not None and norm.any_match(iter_ts, c_.generators[0].iter, {"d": dim}) is not None:
+                        out_.append(c_)
+            return out_
+
+        pre = comps("AffineDimExpr($i)", ["range($d)", "range(0, $d)"])
+        post = comps("AffineDimExpr($i + 1)", ["range($d + 1, self.num_dims)", "range($d + 1, len(self.bounds))"])
+        if pre and post and mid:
+            # identity prefix, split expression, shifted suffix - in that order
+            txt = ast.unparse(res)
+            pos_ = [txt.find(ast.unparse(x)) for x in (pre[0], mid[0][0], post[0])]
+            if not (0 <= pos_[0] < pos_[1] < pos_[2]):
+                pre = []
         chk.result(bool(pre) and bool(post), "C03.tile-factor", f"{f.key}:other-indices", s.where(),
                    "indices before dim are unchanged, indices after dim are shifted by one",
                    "the identity prefix / shifted suffix of the split map changed")
